@@ -325,7 +325,7 @@ reg(PoolCheck(
 ))
 
 reg(PoolCheck(
-    "C04", P(cls=["T", "T", "S"], w={"apply": 12, "start": 12, "map": 3, "lock": 3, "unlock": 2, "gac": 1, "cancel": 3, "cancel_group": 2, "reject": 0, "set_size": 0.8},
+    "C04", P(cls=["T", "T", "S"], w={"apply": 12, "start": 12, "map": 3, "lock": 3, "unlock": 2, "gac": 1, "cancel": 3, "cancel_group": 2, "reject": 0, "set_size": 0.8, "regroup": 2.5},
              callraise=0.2),
     "random scenarios dominated by apply/start requests (num 0..8, args/kwargs shapes) on small pools with lock/unlock/gather_and_close and unrelated "
     "cancellations after acceptance; non-trivial = a request was accepted on a full pool and completed its exact count; distinct by signature",
